@@ -79,27 +79,27 @@ Definition invin (u b : Z) : Z := inv3 u u b.
 (*@ powmod3_I | src/kernel/gmp++/gmp++_int_pow.C | Integer& powmod(Integer& Res, const Integer& n, const Integer& e, const Integer& m) | ca9e08717607 *)
 Definition powmod3_I (n e m : Z) : Z := mpz_powm n e m.
 (* repaired body (frag/C01.fix-4.diff): no exponent-zero shortcut (it returned 1 also when |m| = 1) *)
-(*@ powmod_I | src/kernel/gmp++/gmp++_int_pow.C | Integer powmod(const Integer& n, const Integer& e, const Integer& m) | 720decb26df8 *)
+(*@ powmod_I | src/kernel/gmp++/gmp++_int_pow.C | Integer powmod(const Integer& n, const Integer& e, const Integer& m) | 6e4cc9d8d0b3 *)
 Definition powmod_I (n e m : Z) : Z :=
   if opLt_i32 e 0 then Integer_zero else powmod3_I n e m.
 Definition powmod_I_tree (n e m : Z) : Z :=
   if opEq_i32 e 0 then Integer_one else if opLt_i32 e 0 then Integer_zero else powmod3_I n e m.
 (*@ powmod3_u64 | src/kernel/gmp++/gmp++_int_pow.C | Integer& powmod(Integer& Res, const Integer& n, const uint64_t p, const Integer& m) | 829d430e0439 *)
 Definition powmod3_u64 (n p m : Z) : Z := mpz_powm_ui n p m.
-(*@ powmod_u64 | src/kernel/gmp++/gmp++_int_pow.C | Integer powmod(const Integer& n, const uint64_t p, const Integer& m) | e6439bf9528d *)
+(*@ powmod_u64 | src/kernel/gmp++/gmp++_int_pow.C | Integer powmod(const Integer& n, const uint64_t p, const Integer& m) | d80de3d10ada *)
 Definition powmod_u64 (n p m : Z) : Z := powmod3_u64 n p m.
 Definition powmod_u64_tree (n p m : Z) : Z := if p =? 0 then Integer_one else powmod3_u64 n p m.
-(* Res is the destination's previous value (only observable when n is not invertible modulo m) *)
-(*@ powmod3_i64 | src/kernel/gmp++/gmp++_int_pow.C | Integer& powmod(Integer& Res, const Integer& n, const int64_t e, const Integer& m) | edb6103e41c9 *)
-Definition powmod3_i64 (Res n e m : Z) : Z :=
-  if e <? 0 then let Res1 := inv3 Res n m in powmod3_u64 Res1 (to_u64 (abs_i64 e)) m
+(* the inverse is kept in a local Integer (initial value 0, only observable when n is not invertible modulo m) *)
+(*@ powmod3_i64 | src/kernel/gmp++/gmp++_int_pow.C | Integer& powmod(Integer& Res, const Integer& n, const int64_t e, const Integer& m) | f70ca9c5b856 *)
+Definition powmod3_i64 (n e m : Z) : Z :=
+  if e <? 0 then let ninv := inv3 (ctor_i32 0) n m in powmod3_u64 ninv (to_u64 (abs_i64 e)) m
   else powmod3_u64 n (to_u64 e) m.
 (*@ powmod_i64 | src/kernel/gmp++/gmp++_int_pow.C | Integer powmod(const Integer& n, const int64_t e, const Integer& m) | 4436b6e3d966 *)
-Definition powmod_i64 (n e m : Z) : Z := powmod3_i64 0 n e m.
+Definition powmod_i64 (n e m : Z) : Z := powmod3_i64 n e m.
 (*@ powmod3_u32 | src/kernel/gmp++/gmp++_int.h | friend giv_all_inlined Integer& powmod(Integer& Res, const Integer& n, const uint32_t e, const Integer& m) | b0022df91f7d *)
 Definition powmod3_u32 (n e m : Z) : Z := powmod3_u64 n (u32_to_u64 e) m.
 (*@ powmod3_i32 | src/kernel/gmp++/gmp++_int.h | friend giv_all_inlined Integer& powmod(Integer& Res, const Integer& n, const int32_t e, const Integer& m) | 4c161b16ea2b *)
-Definition powmod3_i32 (Res n e m : Z) : Z := powmod3_i64 Res n (i32_to_i64 e) m.
+Definition powmod3_i32 (n e m : Z) : Z := powmod3_i64 n (i32_to_i64 e) m.
 (*@ powmod_u32 | src/kernel/gmp++/gmp++_int.h | friend giv_all_inlined Integer powmod(const Integer& n, const uint32_t e, const Integer& m) | 6ac8eaea60f1 *)
 Definition powmod_u32 (n e m : Z) : Z := powmod_u64 n (u32_to_u64 e) m.
 (*@ powmod_i32 | src/kernel/gmp++/gmp++_int.h | friend giv_all_inlined Integer powmod(const Integer& n, const int32_t e, const Integer& m) | 4aa7942959c7 *)
@@ -114,12 +114,12 @@ Definition lcm3 (a b : Z) : Z := let g := mpz_lcm a b in if priv_sign g <? 0 the
 Definition gcd_v (a b : Z) : Z := let Res := mpz_gcd a b in if priv_sign Res <? 0 then opNeg Res else Res.
 (*@ gcd3 | src/kernel/gmp++/gmp++_int_gcd.C | Integer& gcd(Integer& g, const Integer& a, const Integer& b) | b065d83ea1a8 *)
 Definition gcd3 (a b : Z) : Z := let g := mpz_gcd a b in if priv_sign g <? 0 then negin g else g.
-(*@ gcdext_v | src/kernel/gmp++/gmp++_int_gcd.C | Integer gcd (Integer& u, Integer& v, const Integer& a, const Integer& b ) | c1adc777629b *)
+(*@ gcdext_v | src/kernel/gmp++/gmp++_int_gcd.C | Integer gcd (Integer& u, Integer& v, const Integer& a, const Integer& b ) | a9b80979b77c *)
 Definition gcdext_v (a b : Z) : Z * Z * Z :=
   match mpz_gcdext a b with
   | (Res, u, v) => if priv_sign Res <? 0 then (negin Res, negin u, negin v) else (Res, u, v)
   end.
-(*@ gcdext5 | src/kernel/gmp++/gmp++_int_gcd.C | Integer& gcd (Integer& g, Integer& u, Integer& v, const Integer& a, const Integer& b) | 4f028ae056c7 *)
+(*@ gcdext5 | src/kernel/gmp++/gmp++_int_gcd.C | Integer& gcd (Integer& g, Integer& u, Integer& v, const Integer& a, const Integer& b) | 241d535e63f3 *)
 Definition gcdext5 (a b : Z) : Z * Z * Z :=
   match mpz_gcdext a b with
   | (g, u, v) => if priv_sign g <? 0 then (negin g, negin u, negin v) else (g, u, v)
